@@ -23,7 +23,14 @@ use prost::{DecodeError, Message};
 use crate::proto::command::ListenersCount;
 
 pub const MAX_FDS_OUT: usize = 200;
-pub const MAX_BYTES_OUT: usize = 4096;
+/// Longest textual form of a `SocketAddr`:
+/// `[ffff:ffff:ffff:ffff:ffff:ffff:ffff:ffff%4294967295]:65535`
+const MAX_ADDRESS_LEN: usize = 58;
+/// The receive buffer must hold the manifest of `MAX_FDS_OUT` listeners: per
+/// address one key byte, one length byte and the text, plus the varint that
+/// length-delimits the whole message.
+pub const MAX_BYTES_OUT: usize = 12010;
+const _: () = assert!(MAX_BYTES_OUT >= MAX_FDS_OUT * (2 + MAX_ADDRESS_LEN) + 10);
 
 #[derive(thiserror::Error, Debug)]
 pub enum ScmSocketError {
